@@ -55,6 +55,38 @@ def _status_set(cond, stat):
     return sorted(s)
 
 
+def _norm(src):
+    """harmless-syntax normalisation applied before any shape is matched: comments are gone already; `(void) x;`
+    statements are dropped; every run of white space becomes one blank (the regexes below use `\\s*` or a single blank)"""
+    src = re.sub(r"\(\s*void\s*\)\s*\w+\s*;", "", src)
+    return re.sub(r"\s+", " ", src)
+
+
+def _fb(src, name):
+    return _norm(csrc.func_body(src, name))
+
+
+def _alpha(blk, decls):
+    """rename the locals of a block to the names the shapes below are written with: `decls` = [(regex with ONE group that
+    matches the declared name, canonical name)]; anchored on what the local is initialised with, not on its spelling.
+    A member access `x->name` is not a local and is left alone."""
+    for rx, canon in decls:
+        m = re.search(rx, blk)
+        if not m:
+            continue
+        name = m.group(1)
+        if name != canon:
+            if re.search(r"(?<![\w>.])%s\b" % re.escape(canon), blk):
+                raise ExtractError("cannot alpha-rename local %s to %s: name already in use" % (name, canon))
+            blk = re.sub(r"(?<![\w>.])%s\b" % re.escape(name), canon, blk)
+    return blk
+
+
+def _stmts(block):
+    """the `;`-separated statements of a brace-free block, blanks normalised"""
+    return [" ".join(x.split()) for x in block.split(";") if x.strip()]
+
+
 def extract(tree):
     jh = csrc.strip_comments(csrc.read(tree, "src/include/janet.h"))
     sig = csrc.enum_values(jh, "JANET_SIGNAL_OK")
@@ -125,8 +157,9 @@ def extract(tree):
     if sorted(letters) != sorted("atdeuywr") or envmodes != {"i": "inherit", "p": "proto"}:
         raise ExtractError("cfun_fiber_new: letter set changed: %s %s" % (sorted(letters), envmodes))
 
-    vm = csrc.strip_comments(csrc.read(tree, "src/core/vm.c"))
-    ccr = csrc.func_body(vm, "janet_check_can_resume")
+    vmr = csrc.strip_comments(csrc.read(tree, "src/core/vm.c"))       # csrc.func_body needs the line structure
+    vm = _norm(vmr)
+    ccr = _fb(vmr, "janet_check_can_resume")
     iroot = ccr.find("JANET_FIBER_FLAG_ROOT")
     m = re.search(r"if\s*\(((?:\s*\(?old_status\s*[=><]=\s*JANET_STATUS_\w+\s*(?:&&\s*old_status\s*<=\s*JANET_STATUS_\w+\))?\s*\|?\|?)+)\)\s*\{\s*"
                   r"const uint8_t \*str = janet_formatc\(\"cannot resume fiber with status :%s\"", ccr)
@@ -151,11 +184,11 @@ def extract(tree):
         raise ExtractError("janet.h: JANET_RECURSION_GUARD not found")
     recursion_guard = int(mg.group(1))
     # every write to janet_vm.stackn, by site (the counter discipline mirrored by Fiber/Guard.lean runEvs / contN)
-    ti = csrc.func_body(vm, "janet_try_init")
-    rs = csrc.func_body(vm, "janet_restore")
+    ti = _fb(vmr, "janet_try_init")
+    rs = _fb(vmr, "janet_restore")
     if not re.search(r"state->stackn = janet_vm\.stackn\+\+;", ti) or not re.search(r"janet_vm\.stackn = state->stackn;", rs):
         raise ExtractError("janet_try_init / janet_restore: stackn save / restore shape changed")
-    jcall = csrc.func_body(vm, "janet_call")
+    jcall = _fb(vmr, "janet_call")
     if not re.search(r"if \(janet_vm\.stackn >= JANET_RECURSION_GUARD\)\s*janet_panic\(\"C stack recursed too deeply\"\);", jcall) or \
        not re.search(r"int32_t oldn = janet_vm\.stackn\+\+;.*?JanetSignal signal = run_vm\(janet_vm\.fiber, janet_wrap_nil\(\)\);.*?janet_vm\.stackn = oldn;", jcall, re.S) or \
        not re.search(r"janet_vm\.stackn\+\+;\s*vm_do_trace\(fun, argc, argv\);\s*janet_vm\.stackn--;", jcall):
@@ -181,7 +214,9 @@ def extract(tree):
     for op in ("JOP_RESUME", "JOP_CANCEL"):
         a = vm.find("VM_OP(%s)" % op)
         b = vm.find("VM_OP(", a + 5)
-        blk = vm[a:b]
+        blk = _alpha(vm[a:b], [(r"JanetFiber \*(\w+) = janet_unwrap_fiber\(stack\[B\]\);", "child"),
+                               (r"JanetSignal (\w+) = janet_continue_(?:no_check|signal)\(", "sig"),
+                               (r"VM_OP\(\w+\) \{ Janet (\w+);", "retreg")])
         if not re.search(mask_test + r"\s*\{\s*vm_return\(sig, retreg\);", blk):
             raise ExtractError("%s: mask test shape changed" % op)
         if not re.search(r"fiber->child = child;", blk) or not re.search(r"fiber->child = NULL;", blk):
@@ -204,12 +239,17 @@ def extract(tree):
     blk = vm[a:vm.find("VM_OP(", a + 5)]
     if not re.search(r"int32_t s = C;\s*if \(s > JANET_SIGNAL_USER9\) s = JANET_SIGNAL_USER9;\s*if \(s < 0\) s = 0;\s*vm_return\(s, stack\[B\]\);", blk):
         raise ExtractError("JOP_SIGNAL: shape changed")
-    cnc = csrc.func_body(vm, "janet_continue_no_check")
-    m = re.search(mask_test + r"\s*\{\s*\*out = in;\s*janet_fiber_set_status\(fiber, sig\);\s*fiber->last_value = child->last_value;\s*"
-                  r"(if \(janet_fiber_status\(child\) == JANET_STATUS_ALIVE\) fiber->child = NULL;\s*)?return sig;", cnc)
+    cnc = _alpha(_fb(vmr, "janet_continue_no_check"), [(r"JanetFiber \*(\w+) = fiber->child;", "child"),
+                                                                 (r"JanetSignal (\w+) = janet_continue\(child,", "sig")])
+    # the propagation branch: three independent assignments in any order, optionally the stale-link statement, then `return sig`
+    m = re.search(mask_test + r"\s*\{([^{}]*?)return sig;\s*\}", cnc)
     if not m:
         raise ExtractError("janet_continue_no_check: propagation branch shape changed")
-    stale_cleared = m.group(1) is not None
+    st = _stmts(m.group(1))
+    stale = "if (janet_fiber_status(child) == JANET_STATUS_ALIVE) fiber->child = NULL"
+    stale_cleared = stale in st
+    if sorted(x for x in st if x != stale) != sorted(["*out = in", "janet_fiber_set_status(fiber, sig)", "fiber->last_value = child->last_value"]):
+        raise ExtractError("janet_continue_no_check: propagation branch statements changed: %r" % st)
     m = re.search(r"case JOP_NEXT:\s*\{\s*if\s*\(((?:\s*sig == JANET_SIGNAL_\w+\s*\|?\|?)+)\)\s*\{\s*in = janet_wrap_nil\(\);\s*\}\s*else\s*\{\s*in = janet_wrap_integer\(0\);", cnc)
     if not m:
         raise ExtractError("janet_continue_no_check: JOP_NEXT fix-up shape changed")
@@ -236,7 +276,7 @@ def extract(tree):
     if not mm:
         raise ExtractError("cfun_fiber_new: arity check shape changed")
     new_max_min_arity = int(mm.group(1))
-    cs = csrc.func_body(vm, "janet_continue_signal")
+    cs = _fb(vmr, "janet_continue_signal")
     tail = r".*child->gc\.flags \|= sig << JANET_FIBER_STATUS_OFFSET;\s*child->flags \|= JANET_FIBER_RESUME_SIGNAL;"
     if re.search(r"JanetFiber \*child = fiber;\s*while \(child->child\) child = child->child;" + tail, cs, re.S):
         walk_guarded = False
@@ -250,7 +290,7 @@ def extract(tree):
     if not re.search(r"if \(fiber->flags & JANET_FIBER_RESUME_SIGNAL\) \{\s*JanetSignal sig = \(fiber->gc\.flags & JANET_FIBER_STATUS_MASK\) >> JANET_FIBER_STATUS_OFFSET;"
                      r".*?janet_vm\.return_reg\[0\] = in;\s*return sig;", vm, re.S):
         raise ExtractError("run_vm: RESUME_SIGNAL prologue shape changed")
-    jc = csrc.func_body(vm, "janet_call")
+    jc = _fb(vmr, "janet_call")
     if not re.search(r"if \(signal != JANET_SIGNAL_ERROR\) \{\s*\*janet_vm\.return_reg = janet_wrap_string\(janet_formatc\(\"%v coerced from %s to error\", \*janet_vm\.return_reg, janet_signal_names\[signal\]\)\);", jc):
         raise ExtractError("janet_call: coercion shape changed")
     capi = csrc.strip_comments(csrc.read(tree, "src/core/capi.c"))
@@ -258,10 +298,13 @@ def extract(tree):
     if not re.search(r"if \(janet_vm\.coerce_error && sig != JANET_SIGNAL_OK\) \{.*?if \(sig != JANET_SIGNAL_ERROR\) \{\s*message = janet_wrap_string\(janet_formatc\(\"%v coerced from %s to error\", message, janet_signal_names\[sig\]\)\);\s*\}\s*sig = JANET_SIGNAL_ERROR;", sv, re.S):
         raise ExtractError("janet_signalv: coercion shape changed")
 
-    val = csrc.strip_comments(csrc.read(tree, "src/core/value.c"))
-    nx = csrc.func_body(val, "janet_next_impl")
+    valr = csrc.strip_comments(csrc.read(tree, "src/core/value.c"))
+    val = _norm(valr)
+    nx = _fb(valr, "janet_next_impl")
     a = nx.find("case JANET_FIBER:")
-    nxf = nx[a:]
+    nxf = _alpha(nx[a:], [(r"JanetFiber \*(\w+) = janet_unwrap_fiber\(ds\);", "child"),
+                          (r"JanetSignal (\w+) = janet_continue\(child,", "sig"),
+                          (r"JanetFiberStatus (\w+) = janet_fiber_status\(child\);", "status")])
     m = re.search(r"if\s*\(((?:\s*status == JANET_STATUS_\w+\s*\|?\|?)+)\)\s*\{\s*return janet_wrap_nil\(\);", nxf)
     if not m:
         raise ExtractError("janet_next_impl: status pre-check shape changed")
